@@ -432,7 +432,9 @@ let do_legal fields =
   | Ok b ->
     let p = abs0 b in
     if legal_position p then
-      emit "L" (Printf.sprintf "1 %d %s" (List.length (legal_moves p)) (if in_check p.pos_pl p.pos_stm then "check" else "quiet"))
+      (* H: the hypothesis of the C01/C02/C13 theorems, by its two executable tests *)
+      emit "L" (Printf.sprintf "1 %d %s H%d%d" (List.length (legal_moves p)) (if in_check p.pos_pl p.pos_stm then "check" else "quiet")
+                  (if pos_ok1b b then 1 else 0) (if rep_legalb b then 1 else 0))
     else emit "L" "0"
   | _ -> emit "L" "0"
 
